@@ -30,13 +30,15 @@ Inductive atom := ANull | AStr (x : str) | ANum (milli : Z).   (* numbers: three
 Inductive raw := RAtom (a : atom) | RList (l : list atom) | RList2 (l : list (list atom)).
 
 (** *** strings of a reply row (resultset.go:30-63, future.go)
-    A byte that is not part of a valid UTF-8 sequence is the code point
-    [0x110000 + b]. djson accepts such bytes and turns each into U+FFFD; it
-    rejects a raw control byte (< 0x20) inside a string, then the WHOLE row is
-    passed through bytesToValidUTF8 which replaces every run of control bytes,
-    DEL and invalid bytes by one U+FFFD and is decoded again. *)
+    A raw byte [b] of the reply that is no legal content of a JSON string - a
+    byte outside any valid UTF-8 sequence, or a control byte (< 0x20) sent
+    unescaped - is the code point [0x110000 + b]; an escaped control character
+    (\u0001) is the plain code point. djson accepts the first kind and turns
+    each such byte into U+FFFD; it rejects an unescaped control byte, then the
+    WHOLE row is passed through bytesToValidUTF8, which replaces every run of
+    raw control bytes, DEL and invalid bytes by one U+FFFD, and is decoded again. *)
 Definition bad_byte (c : N) : bool := N.leb 1114112 c.
-Definition ctl (c : N) : bool := N.ltb c 32.
+Definition raw_ctl (c : N) : bool := N.leb 1114112 c && N.ltb c 1114144.
 Definition del (c : N) : bool := N.eqb c 127.
 Definition fffd : N := 65533%N.
 
@@ -45,7 +47,7 @@ Definition lossy (x : str) : str := map (fun c => if bad_byte c then fffd else c
 Fixpoint repair_from (inv : bool) (x : str) : str :=
   match x with
   | [] => []
-  | c :: r => if ctl c || del c || bad_byte c
+  | c :: r => if del c || bad_byte c
               then (if inv then repair_from true r else fffd :: repair_from true r)
               else c :: repair_from false r
   end.
@@ -59,7 +61,7 @@ Definition raw_map (f : str -> str) (r : raw) : raw :=
   | RList2 l => RList2 (map (map (atom_map f)) l)
   end.
 
-Definition atom_dirty (a : atom) : bool := match a with AStr x => existsb ctl x | _ => false end.
+Definition atom_dirty (a : atom) : bool := match a with AStr x => existsb raw_ctl x | _ => false end.
 Definition raw_dirty (r : raw) : bool :=
   match r with
   | RAtom a => atom_dirty a
@@ -276,26 +278,16 @@ Definition with_idlists (tds : list tdata) : list tdata :=
                   (td_rows td))
          else td) tds.
 
-(** *** references (DataRow.SetReferences): every referenced object must exist,
-    except the service of a host comment / host downtime *)
-Definition ref_optional (t : tschema) (reftable : str) : bool :=
-  str_eqb reftable (s "services") && (str_eqb (t_name t) (s "comments") || str_eqb (t_name t) (s "downtimes")).
-
-Definition refs_ok (schema : list tschema) (bk : backend) : bool :=
-  forallb (fun t =>
-    match find_data bk (t_name t) with
-    | None => true
-    | Some td =>
-        forallb (fun r =>
-          forallb (fun rf => ref_optional t (fst rf) ||
-                             match find_ref schema bk t td r (fst rf) with Some _ => true | None => false end)
-                  (t_refs t))
-          (td_rows td)
-    end) (filter stored schema).
+(** *** references (DataRow.SetReferences)
+    [d.refs[table] = index[key]] stores a nil pointer for a key the referenced
+    table does not have, and the following [_, ok := d.refs[table]] test then
+    always succeeds: the "reference not found" error is unreachable. A dangling
+    reference (the service of a host comment, but also a service whose host the
+    backend did not deliver) loads, and its columns read as the empty value
+    ([get_out]: [find_ref] = None). *)
 
 (** error classes of InitAllTables *)
 Definition e_width : N := 1%N.      (* "result set verification failed: len mismatch" *)
-Definition e_ref : N := 2%N.        (* "reference not found" *)
 Definition e_status : N := 3%N.     (* "peered partner not ready yet": no status row *)
 
 Inductive outcome := Loaded (b : backend) | Failed (e : N).
@@ -307,8 +299,7 @@ Definition load (srt : sorter) (schema : list tschema) (key name : str) (flags :
       match td_rows (table_or_empty tds (s "status")) with
       | [] => Failed e_status
       | _ =>
-          let bk := mkBackend key name flags true [] (with_idlists tds) in
-          if refs_ok schema bk then Loaded bk else Failed e_ref
+          Loaded (mkBackend key name flags true [] (with_idlists tds))
       end
   end.
 
